@@ -19,11 +19,12 @@ CONSTANTS Entries,     \* entries with a .trashinfo
           Cmd,         \* "restore" | "empty" | "rm"
           Selected,    \* the entries the command works on (restore: chosen indices; rm: matches; empty: doomed)
           CrossVol,    \* entries whose restore crosses volumes (copy + delete instead of rename)
+          Occupied,    \* entries at whose original location another non-directory lives (trash-restore --overwrite replaces it)
           Mutant       \* "none" | "infofirst"
 
 VARIABLES info,    \* [Entries -> "present" | "gone"]
           pay,     \* [Entries \cup Orphans -> "whole" | "partial" | "gone"]
-          dest,    \* [Entries -> "absent" | "partial" | "whole"]       (restore destinations)
+          dest,    \* [Entries -> "absent" | "other" | "partial" | "whole"]       (restore destinations; "other": the occupant)
           todo,    \* entries still to be handled by the running command
           cur, pc, \* entry in hand and program counter
           crashes  \* number of crashes so far
@@ -34,7 +35,7 @@ NoE == "-"
 Init ==
   /\ info = [e \in Entries |-> "present"]
   /\ pay = [e \in Entries \cup Orphans |-> "whole"]
-  /\ dest = [e \in Entries |-> "absent"]
+  /\ dest = [e \in Entries |-> IF e \in Occupied THEN "other" ELSE "absent"]
   /\ todo = Selected /\ cur = NoE /\ pc = "pick" /\ crashes = 0
 
 \* what the command lists when it (re)starts: entries with an info file that are selected; for trash-empty also orphans
@@ -67,6 +68,8 @@ Move ==
   /\ pc = "move"
   /\ IF pay[cur] = "gone" /\ dest[cur] # "whole"
      THEN pc' = "pick" /\ UNCHANGED <<pay, dest>>                   \* nothing to move (info without payload): error, info kept
+     ELSE IF dest[cur] = "other"
+          THEN dest' = [dest EXCEPT ![cur] = "absent"] /\ UNCHANGED <<pay, pc>>   \* --overwrite: the occupant is removed first; the payload is still whole in the trash
      ELSE IF cur \notin CrossVol
           THEN /\ pay' = [pay EXCEPT ![cur] = "gone"] /\ dest' = [dest EXCEPT ![cur] = "whole"]
                /\ pc' = (IF Mutant = "infofirst" THEN "pick" ELSE "rminfo")
@@ -100,7 +103,7 @@ InfoLast == \A e \in Entries : pay[e] # "gone" => info[e] = "present"
 \* C15: an entry being restored is complete in the trash or complete at its destination, never lost
 RestoreNeverLoses == \A e \in Entries : Cmd = "restore" => (pay[e] = "whole" \/ dest[e] = "whole")
 \* entries the command does not work on are untouched
-FrameOK == \A e \in Entries \ Selected : info[e] = "present" /\ pay[e] = "whole" /\ dest[e] = "absent"
+FrameOK == \A e \in Entries \ Selected : info[e] = "present" /\ pay[e] = "whole" /\ dest[e] = (IF e \in Occupied THEN "other" ELSE "absent")
 \* C15: (re-)running the purge completes it: everything selected is gone, pairs whole; for restore: restored and out of the trash
 DoneOK == pc = "done" =>
             /\ \A e \in Selected : info[e] = "gone" /\ pay[e] = "gone" /\ (Cmd = "restore" => dest[e] = "whole")
